@@ -171,6 +171,52 @@ func scenarioC06(d time.Duration, seed int64) int {
 			}
 		}(ri)
 	}
+	// linearizability of Handle: of two concurrent registrations of twin patterns (equal up to parameter
+	// names) on a router with no other route, or of the same pattern and method, exactly one is accepted
+	wg.Add(1)
+	go func() {
+		defer wg.Done()
+		for round := 0; ; round++ {
+			select {
+			case <-stop:
+				return
+			default:
+			}
+			rr := newRaceRouter("twin", e, mux.WithLock(true))
+			pats := [2]string{"/users/{id:[a-z0-9]+}/posts/{p:\\d+}", "/users/{uid:[a-z0-9]+}/posts/{q:\\d+}"}
+			if round%3 == 2 {
+				pats[1] = pats[0]
+			}
+			var accepted atomic.Int32
+			start := make(chan struct{})
+			var tw sync.WaitGroup
+			for k := 0; k < 2; k++ {
+				tw.Add(1)
+				go func(k int) {
+					defer tw.Done()
+					<-start
+					ok := true
+					func() {
+						defer func() {
+							if recover() != nil {
+								ok = false
+							}
+						}()
+						rr.Handle(pats[k], &rcH{"W:" + pats[k]}, nil, http.MethodGet)
+					}()
+					if ok {
+						accepted.Add(1)
+					}
+				}(k)
+			}
+			close(start)
+			tw.Wait()
+			if n := accepted.Load(); n != 1 {
+				e.fail("%d of two concurrent Handle calls for %s and %s were accepted (Routes: %d)", n, pats[0], pats[1], len(rr.Routes()))
+			}
+			served.Add(1)
+		}
+	}()
 	time.Sleep(d)
 	close(stop)
 	wg.Wait()
